@@ -1,4 +1,10 @@
 // ---- assumed std contracts not shipped with vstd (A-std) ----
+/// `kk` is the key that `k` denotes through `Borrow` (for Q = K: equality)
+pub uninterp spec fn key_borrows_as<K, Q: ?Sized>(kk: K, k: &Q) -> bool;
+pub broadcast axiom fn axiom_key_borrows_self<K>(kk: K, k: &K)
+    ensures #[trigger] key_borrows_as::<K, K>(kk, k) == (kk == *k);
+
+/// `HashMap::get_mut`: a mutable borrow of the value stored under `k`; every other entry is untouched
 pub assume_specification<'a, K, V, S, A, Q> [std::collections::HashMap::<K, V, S, A>::get_mut]
     (m: &'a mut std::collections::HashMap<K, V, S, A>, k: &Q) -> (r: std::option::Option<&'a mut V>)
     where
@@ -11,7 +17,7 @@ pub assume_specification<'a, K, V, S, A, Q> [std::collections::HashMap::<K, V, S
             Some(v) => contains_borrowed_key(old(m)@, k) && maps_borrowed_key_to_value(old(m)@, k, *v)
                 && final(m)@.dom() == old(m)@.dom()
                 && maps_borrowed_key_to_value(final(m)@, k, *final(v))
-                && (forall|kk: K| #![auto] old(m)@.contains_key(kk) && !maps_borrowed_key_to_value(old(m)@, k, old(m)@[kk]) ==> final(m)@[kk] == old(m)@[kk]),
+                && (forall|kk: K| #![trigger final(m)@[kk]] #![trigger old(m)@[kk]] old(m)@.contains_key(kk) && !key_borrows_as(kk, k) ==> final(m)@[kk] == old(m)@[kk]),
             None => !contains_borrowed_key(old(m)@, k) && final(m)@ == old(m)@,
         };
 
